@@ -14,6 +14,8 @@ type executeUnit struct {
 	mmu    *memoryManagementUnit
 
 	// Pending
+	fetching  bool
+	fetchBase int32
 	coroutine func(cycle int, ctx *risc.Context, app risc.Application) (bool, int32, int32, bool, error)
 	memory    []int8
 	runner    risc.InstructionRunnerPc
@@ -71,6 +73,7 @@ func (u *executeUnit) coPrepareRun(cycle int, ctx *risc.Context, app risc.Applic
 			return false, 0, 0, false, nil
 		} else {
 			remainingCycles := latency.MemoryAccess - 1
+			u.fetching, u.fetchBase = true, addrs[0]-addrs[0]%l3CacheLineSize
 			u.coroutine = func(cycle int, ctx *risc.Context, app risc.Application) (bool, int32, int32, bool, error) {
 				if remainingCycles > 0 {
 					remainingCycles--
@@ -80,6 +83,7 @@ func (u *executeUnit) coPrepareRun(cycle int, ctx *risc.Context, app risc.Applic
 				base := addrs[0] - addrs[0]%l3CacheLineSize
 				line := u.mmu.fetchCacheLine(base)
 				u.mmu.pushLineToL3(comp.AlignedAddress(base), line)
+				u.fetching = false
 				m, _, exists := u.mmu.getFromL3(addrs)
 				if !exists {
 					panic("cache line doesn't exist")
@@ -133,6 +137,11 @@ func (u *executeUnit) coRun(cycle int, ctx *risc.Context, app risc.Application) 
 
 func (u *executeUnit) flush() {
 	u.coroutine = nil
+	if u.fetching {
+		// The line fetch of the flushed load will never complete
+		u.mmu.cancelPending(u.fetchBase)
+		u.fetching = false
+	}
 }
 
 func (u *executeUnit) isEmpty() bool {
